@@ -14,4 +14,4 @@ def kmer_floor(F, rep):
 
 def run_kmer_lemmas(F, rep, which):
     for ty in kmer_type_names(F):
-        lemmas.kmer_lemmas(F, rep, ty, which=which)
+        rep.run(lemmas.kmer_lemmas, F, rep, ty, which=which)
